@@ -781,11 +781,15 @@ func (r *runningStep) runOnInput() {
 	case loopData, ok := <-r.executeInput:
 		if !ok {
 			r.logger.Debugf("aborted waiting for result in foreach")
+			r.closedEarly(StageIDOutputs, true)
 			return
 		}
 		r.processInput(loopData)
 	case <-r.ctx.Done():
+		// Closed while waiting for the items: report the closure like every other early exit does,
+		// otherwise the step never completes and keeps showing as waiting.
 		r.logger.Debugf("context done")
+		r.closedEarly(StageIDOutputs, true)
 		return
 	}
 }
